@@ -826,6 +826,10 @@ class FunctionEmitterVisitor(OpVisitor[None]):
             # Signed right shift
             lhs = self.emit_signed_int_cast(op.lhs.type) + lhs
             rhs = self.emit_signed_int_cast(op.rhs.type) + rhs
+        if op.op in (IntOp.LEFT_SHIFT, IntOp.RIGHT_SHIFT) and isinstance(op.lhs, Integer):
+            # A C shift is performed in the type of its left operand, and a plain
+            # literal is an int: give it the type of the result.
+            lhs = f"({self.ctype(op.type)}){lhs}"
         self.emit_line(f"{dest} = {lhs} {op.op_str[op.op]} {rhs};")
 
     def visit_comparison_op(self, op: ComparisonOp) -> None:
